@@ -125,15 +125,15 @@ def check_message(m, enc, acc, w, dbx=None, d=None):
 ROUTES = ("plain", "actisense", "usb_bytearray", "plain", "usb_bytes", "ebyte_bytearray", "yd", "plain")
 
 
-def decode_via(dec, route, prio, d, pb: bytes, k):
+def decode_via(dec, route, prio, d, pb: bytes, k, src=9, dst=255):
     """The same payload through one of the decoder's entry points, handing over the argument types the clients hand
     over (the Waveshare client passes a bytearray slice of its buffer)."""
     pdu1 = ((d.pgn >> 8) & 0xFF) < 240
     if route == "plain" or (d.type not in ("Single", "Fast")) or (d.type == "Single" and len(pb) > 8) or len(pb) > 223:
-        return dec.decode_basic_string(wire.plain_line(prio, d.pgn, 9, 255, pb), already_combined=True)
+        return dec.decode_basic_string(wire.plain_line(prio, d.pgn, src, dst if pdu1 else 255, pb), already_combined=True)
     if route == "actisense":
-        return dec.decode_actisense_string(wire.actisense_line(prio, d.pgn, 9, 255, pb))
-    ident = wire.can_id(prio, d.pgn, 9, 255)
+        return dec.decode_actisense_string(wire.actisense_line(prio, d.pgn, src, dst if pdu1 else 255, pb))
+    ident = wire.can_id(prio, d.pgn, src, dst)
     frames = [pb] if d.type == "Single" else wire.fast_frames(pb, k % 8, 0xFF)
     r = None
     for f in frames:
@@ -167,7 +167,10 @@ def run_json(spec, acc):
             dec = dec_ident if k % 3 == 0 else (dec_units if k % 5 == 4 else dec_plain)
             route = ROUTES[(k + d.index) % len(ROUTES)]
             try:
-                m = decode_via(dec, route, rng.randrange(8), d, payload.to_bytes(nb, "little"), k)
+                # addressing over its whole range, the zeros included (source 0, destination 0, priority 0); the decoder
+                # that carries identities knows source 9 only
+                src_ = 9 if dec is dec_ident else rng.choice([0, 0, 1, 9, 128, 253])
+                m = decode_via(dec, route, rng.choice([0, 0, 3, 7]), d, payload.to_bytes(nb, "little"), k, src=src_, dst=rng.choice([0, 0, 17, 254, 255]))
             except Exception:  # noqa: BLE001
                 acc.case(None)
                 continue
